@@ -16,7 +16,9 @@ import (
 // VerifC19Backend: a mix of concurrent requests (write, point read, range read, watch, two
 // compactions, three writers) on one node over the real in-memory engine, background loops running.
 func VerifC19Backend() {
-	be := backend.NewBackend(memkv.NewKvStorage(), backend.Config{Prefix: "/r", EnableEtcdCompatibility: true, WatchCacheSize: 1 + zzverif.Choose("cache", 2)}, zzmodel.NoMetrics{})
+	be := backend.NewBackend(memkv.NewKvStorage(), backend.Config{Prefix: "/r", EnableEtcdCompatibility: true, WatchCacheSize: 1 + zzverif.Choose("cache", 2),
+		// a configuration slice with spare capacity, as repeated command-line flags produce
+		SkippedPrefixes: append(make([]string, 0, 4), "/r/skipped")}, zzmodel.NoMetrics{})
 	be.SetCurrentRevision(5)
 	key := []byte("/r/a")
 	_, err := be.Create(ctx, &proto.CreateRequest{Key: key, Value: []byte("v")})
